@@ -29,6 +29,7 @@
 #include <string>
 #include <vector>
 #include <sstream>
+#include <regex>
 using namespace llvm;
 using std::string;
 
@@ -38,6 +39,8 @@ static std::map<Type*, string> typeNames;
 static std::vector<string> typeDefs;  // in dependency order
 static std::map<const Value*, string> globalNames;
 static std::set<string> stubs;  // functions to leave undefined (harness supplies the body)
+static std::vector<std::regex> emptyRx;  // functions emitted with an empty body (contract-only: formatting etc.)
+static std::vector<string> emptied;
 static std::map<string, string> entryAsserts;
 static bool NLX = false;
 static bool HEAPCHK = false, HEAPCHK_ALL = false;
@@ -774,6 +777,7 @@ int main(int argc, char** argv) {
     if (a == "-o" && i + 1 < argc) out = argv[++i];
     else if (a == "--header" && i + 1 < argc) header = argv[++i];
     else if (a == "--stub" && i + 1 < argc) stubs.insert(argv[++i]);
+    else if (a == "--empty-regex" && i + 1 < argc) emptyRx.push_back(std::regex(argv[++i]));
     else if (a == "--nlx") NLX = true;
     else if (a == "--heapcheck") HEAPCHK = true;
     else if (a == "--heapcheck-all") HEAPCHK = HEAPCHK_ALL = true;
@@ -826,6 +830,19 @@ int main(int argc, char** argv) {
   std::vector<string> encoded;
   for (auto& Fn : *M) {
     if (Fn.isDeclaration() || stubs.count(Fn.getName().str())) continue;
+    bool empty = false;
+    for (auto& rx : emptyRx) if (std::regex_search(Fn.getName().str(), rx)) empty = true;
+    if (empty) {
+      FnCtx F;
+      FO << fnProto(Fn, true, &F) << " {\n";
+      Type* RT = Fn.getReturnType();
+      if (RT->isVoidTy()) FO << "  return;\n";
+      else if (RT->isStructTy() || RT->isArrayTy()) FO << "  " << ctype(RT) << " z = {0}; return z;\n";
+      else FO << "  return (" << ctype(RT) << ")0;\n";
+      FO << "}\n\n";
+      emptied.push_back(Fn.getName().str());
+      continue;
+    }
     emitFunction(Fn, FO);
     nfn++;
     encoded.push_back(Fn.getName().str());
@@ -867,6 +884,9 @@ int main(int argc, char** argv) {
     H << "/* generated by ll2c: entry points */\n#include <stdint.h>\n" << hdr << "void ll2c_global_ctors(void);\n";
   }
   errs() << "ll2c: functions=" << nfn << " virtual_sites=" << nVirtualSites << " indirect_sites=" << nIndirectSites << "\n";
+  outs() << "EMPTIED";
+  for (auto& n : emptied) outs() << " " << n;
+  outs() << "\n";
   outs() << "ENCODED";
   for (auto& n : encoded) outs() << " " << n;
   outs() << "\n";
